@@ -464,6 +464,17 @@ class _Proxy:
         return getattr(self._real, name)
 
 
+_MISSING = object()
+_CURRENT_WORLD = [None]
+
+
+def module_point():
+    """called from the top level of a test module while it is being imported: a scheduling point inside the import"""
+    w = _CURRENT_WORLD[0]
+    if w is not None and w.sched is not None:
+        w.sched.point("m")
+
+
 class MakoWorld:
     """Patches the real mako modules so that the model's scheduling points yield to `sched`, and simulates the
     clocks.  Use as a context manager; everything is restored on exit."""
@@ -483,6 +494,7 @@ class MakoWorld:
         self.sched = None
         self.constructions = 0
         self.constructing = 0
+        self.importing = {}             # module name -> tid of the thread executing its first import
         self.memo_inits = {}            # (id(template), property) -> number of initialisations by renders
         self.lru_del_keyerrors = 0
         self.lru_inside = 0             # number of threads inside LRUCache.__setitem__ / _manage_size
@@ -501,6 +513,7 @@ class MakoWorld:
     def __enter__(self):
         L, T, U, G = self.L, self.T, self.U, self.G
         world = self
+        _CURRENT_WORLD[0] = self
 
         def save(obj, name):
             self._saved.append((obj, name, obj.__dict__[name] if isinstance(obj, type) else getattr(obj, name)))
@@ -544,6 +557,30 @@ class MakoWorld:
         save(U, "timeit")
         U.timeit = _Proxy(U.timeit, default_timer=self.next_timer)
 
+        # `__import__` as seen by mako.runtime (ModuleNamespace.__init__): the per-module import lock as an instrumented
+        # lock - a thread that imports a module while another thread is still executing its FIRST import is blocked
+        # until that import has finished (that is what importlib's module lock does); the module body itself may call
+        # `module_point()` so that other threads run while the module is half initialised
+        import builtins
+        import mako.runtime as R
+        real_import = builtins.__import__
+
+        def instr_import(name, *a, **k):
+            sch = world.sched
+            if sch is None or sch.me() is None:
+                return real_import(name, *a, **k)
+            me = sch.me().tid
+            sch.point("I", lambda: world.importing.get(name, me) == me)
+            if name in sys.modules or name in world.importing:
+                return real_import(name, *a, **k)
+            world.importing[name] = me
+            try:
+                return real_import(name, *a, **k)
+            finally:
+                world.importing.pop(name, None)
+        self._saved.append((R, "__import__", R.__dict__.get("__import__", _MISSING)))
+        R.__import__ = instr_import
+
         class InstrMemo(U.memoized_property):
             def __get__(self_, obj, cls):
                 if obj is not None and world.sched is not None and not world.constructing:
@@ -561,9 +598,16 @@ class MakoWorld:
 
     def __exit__(self, *exc):
         for obj, name, val in reversed(self._saved):
-            setattr(obj, name, val)
+            if val is _MISSING:
+                try:
+                    delattr(obj, name)
+                except AttributeError:
+                    pass
+            else:
+                setattr(obj, name, val)
         self._saved = []
         self.sched = None
+        _CURRENT_WORLD[0] = None
         return False
 
     # -- per-lookup instrumentation
